@@ -21,8 +21,10 @@ open XlModel
 def getCellValueM (s : Sheet) (ms : List Grid.MObj) (c r : Nat) : Val :=
   getCellValue s (Grid.anchor ms c r).1 (Grid.anchor ms c r).2
 
-/-- the merge list after `GetMergeCells` (`mergeOverlapCells` runs in place) -/
-def getMergeCellsState (ms : List Grid.MObj) : List Grid.MObj := Grid.mergeOverlapCells ms
+/-- the merge list after `GetMergeCells`: `mergeOverlapCells` ran on the worksheet itself
+(regenerated fact `getMergeCellsInPlace`), it now runs on a copy -/
+def getMergeCellsState (ms : List Grid.MObj) : List Grid.MObj :=
+  if Facts.C04.getMergeCellsInPlace then Grid.mergeOverlapCells ms else ms
 
 /-- a merged range whose `Ref` and cached rect are the same rectangle -/
 def mrange (c1 r1 c2 r2 : Nat) : Grid.MObj := ⟨⟨c1, r1, c2, r2⟩, ⟨c1, r1, c2, r2⟩⟩
